@@ -107,11 +107,25 @@ func SpellV(prog []item, v int) string {
 				nblk++
 				b.WriteString(sp[0])
 				closers = append(closers, sp[1])
-			case "forlet":
-				b.WriteString("for(let " + it.N + ";" + it.C + ";){")
+			case "forlet", "forvar": // with an expression after the declaration also as for-in / for-of (same scoping of both names)
+				kw := map[string]string{"forlet": "let ", "forvar": "var "}[it.S]
+				switch {
+				case it.C != "" && v >= 0 && (v+nblk)%3 == 1:
+					b.WriteString("for(" + kw + it.N + " in " + it.C + "){")
+				case it.C != "" && v >= 0 && (v+nblk)%3 == 2:
+					b.WriteString("for(" + kw + it.N + " of " + it.C + "){")
+				default:
+					b.WriteString("for(" + kw + it.N + ";" + it.C + ";){")
+				}
+				nblk++
 				closers = append(closers, "}")
-			case "forvar":
-				b.WriteString("for(var " + it.N + ";" + it.C + ";){")
+			case "forx": // no declaration in the head: the target and the iterated expression are uses
+				if v >= 0 && (v+nblk)%2 == 1 {
+					b.WriteString("for(" + it.N + " of " + it.C + "){")
+				} else {
+					b.WriteString("for(" + it.N + " in " + it.C + "){")
+				}
+				nblk++
 				closers = append(closers, "}")
 			case "catch":
 				b.WriteString("try{}catch(" + it.N + "){")
@@ -152,7 +166,7 @@ func occKinds(prog []item) []string {
 			out = append(out, "use", "use")
 		case "open":
 			if it.N != "" {
-				out = append(out, map[string]string{"fn": "fnname", "fx": "fxname", "cls": "clsname", "cx": "cxname", "forlet": "forlet", "forvar": "forvar", "catch": "catch"}[it.S])
+				out = append(out, map[string]string{"fn": "fnname", "fx": "fxname", "cls": "clsname", "cx": "cxname", "forlet": "forlet", "forvar": "forvar", "catch": "catch", "forx": "use"}[it.S])
 			}
 			if it.S == "fn" || it.S == "fx" || it.S == "ar" {
 				for _, p := range it.Ps {
@@ -188,7 +202,7 @@ func occContexts(prog []item) [][]string {
 					c = append(c, "default-same-name")
 				}
 			}
-			if (sc.S == "forlet" || sc.S == "forvar") && sc.C == name {
+			if (sc.S == "forlet" || sc.S == "forvar" || sc.S == "forx") && (sc.C == name || sc.S == "forx" && sc.N == name) {
 				c = append(c, "loopcond-same-name")
 			}
 		}
@@ -361,7 +375,7 @@ var names = []string{"a", "b", "c", "d"}
 
 // runCase executes one generated program; returns whether the observation differs from the expectation (cheap pre-check;
 // the verdict is the trace specification's).
-func runCase(w *tr.Writer, c *tcase, src string) bool {
+func runCase(w *tr.Writer, c *tcase, src string, opts js.Options) bool {
 	// expectation: canonical labels of the bindings in source order
 	exp := []int{}
 	ids := map[string]int{}
@@ -401,8 +415,9 @@ func runCase(w *tr.Writer, c *tcase, src string) bool {
 				ev["out"], ev["panic"] = "panic", fmt.Sprint(x)
 			}
 		}()
-		a, err := js.Parse(parse.NewInputString(src), js.Options{})
+		a, err := js.Parse(parse.NewInputString(src), opts)
 		ev["ok"] = err == nil
+		ev["w2f"] = opts.WhileToFor
 		if err == nil {
 			ast = a
 		} else {
@@ -448,7 +463,7 @@ func runCase(w *tr.Writer, c *tcase, src string) bool {
 				ev3["out"], ev3["panic"] = "panic", fmt.Sprint(x)
 			}
 		}()
-		a2, err := js.Parse(parse.NewInputString(text), js.Options{})
+		a2, err := js.Parse(parse.NewInputString(text), opts)
 		ev3["ok"] = err == nil
 		if err != nil {
 			differs = true
@@ -515,7 +530,8 @@ func Replay(args []string) {
 		sum.Executions++
 		tid++
 		w.Begin(tid)
-		d := runCase(w, &c, src)
+		// the scoping of the tree does not depend on Options: every other program is parsed with WhileToFor
+		d := runCase(w, &c, src, js.Options{WhileToFor: (line/len(blockSpellings))%2 == 1})
 		if d {
 			sum.Mismatches++
 		}
